@@ -316,9 +316,7 @@
 (assert
  (not (= alloc@0 0)))
 (assert
- (let (($x315 (= in_position_1 in_r_3)))
- (let (($x316 (not $x315)))
- (not $x316))))
+ (not (<= in_position_1 in_r_1)))
 (assert
  (not (= alloc@0 (- 1))))
 (assert
@@ -330,33 +328,23 @@
 (assert
  (not (= alloc@0 0)))
 (assert
- (>= in_position in_r))
-(assert
- (not (= alloc@0 0)))
-(assert
- (not (= alloc@0 0)))
-(assert
- (not (= alloc@0 0)))
-(assert
- (not (= alloc@0 (- 1))))
-(assert
- (not (= alloc@0 (- 1))))
+ (<= in_position_1 in_r_3))
 (assert
  (let ((?x38 (+ alloc@0 1)))
 (let ((?x303 (store (store |H\|parser.Position\|Character\|Int@0| ?x38 0) ?x38 in_position)))
-(let ((?x374 (select ?x303 ?x38)))
+(let ((?x341 (select ?x303 ?x38)))
 (let ((?x296 (store (store |H\|parser.Range\|End.Character\|Int@0| alloc@0 0) alloc@0 in_r_2)))
-(let ((?x366 (select ?x296 alloc@0)))
-(let (($x380 (>= ?x366 ?x374)))
+(let ((?x346 (select ?x296 alloc@0)))
 (let ((?x304 (store (store |H\|parser.Position\|Line\|Int@0| ?x38 0) ?x38 in_position_1)))
 (let ((?x305 (select ?x304 ?x38)))
 (let ((?x297 (store (store |H\|parser.Range\|End.Line\|Int@0| alloc@0 0) alloc@0 in_r_3)))
-(let ((?x306 (select ?x297 alloc@0)))
+(let ((?x335 (select ?x297 alloc@0)))
 (let ((?x292 (store (store |H\|parser.Range\|Start.Character\|Int@0| alloc@0 0) alloc@0 in_r)))
-(let ((?x335 (select ?x292 alloc@0)))
+(let ((?x340 (select ?x292 alloc@0)))
 (let ((?x295 (store (store |H\|parser.Range\|Start.Line\|Int@0| alloc@0 0) alloc@0 in_r_1)))
-(let ((?x337 (select ?x295 alloc@0)))
-(let (($x383 (and (or (> ?x305 ?x337) (and (= ?x305 ?x337) (>= ?x374 ?x335))) (or (> ?x306 ?x305) (and (= ?x306 ?x305) $x380)))))
-(let (($x389 (= $x380 $x383)))
-(not $x389))))))))))))))))))
+(let ((?x306 (select ?x295 alloc@0)))
+(let (($x310 (> ?x305 ?x306)))
+(let (($x350 (and (or $x310 (and (= ?x305 ?x306) (>= ?x341 ?x340))) (or (> ?x335 ?x305) (and (= ?x335 ?x305) (>= ?x346 ?x341))))))
+(let (($x351 (= true $x350)))
+(not $x351))))))))))))))))))
 (check-sat)
